@@ -137,6 +137,12 @@ Ltac small_wrap :=
   | |- context [wrap 8 ?x] => rewrite (wrap8_small x) by lia
   | |- context [wrap 64 ?x] => rewrite (wrap64_small x) by lia
   end.
+Ltac decide_cmp :=
+  match goal with
+  | |- context [?x =? ?y] =>
+      first [ let H := fresh in assert (H : (x =? y) = true) by solve_bool; rewrite H; clear H
+            | let H := fresh in assert (H : (x =? y) = false) by solve_bool; rewrite H; clear H ]
+  end.
 Ltac mev_step :=
   first [ rewrite bind_Ret
         | rewrite m_get_0 | rewrite m_get_1 | rewrite m_slice_1 | rewrite m_slice_2
@@ -444,4 +450,122 @@ Proof.
   rewrite code_hexDecode by (rewrite ?repeat_length; lia). mev.
   unfold zlen. rewrite m_slice_to by (rewrite app_length; lia). mev.
   rewrite firstn_exact. reflexivity.
+Qed.
+
+(* ================================================================== underscoreOK (strz/std_strconv.go) *)
+(* join points: the translator turns "what follows an if whose branches fall through" into a local function that is called
+   at the end of both branches.  [name_join K] names the first one of the goal, so that one general fact about it can be
+   proved (once) and used at every call. *)
+Ltac open_top f := cbv delta [f]; cbv beta.
+Ltac name_join K := match goal with |- context [let k := ?F in _] => set (K := F) end.
+
+(* the model, with the literal pattern 48 :: c1 :: t spelled as a test *)
+Definition us_strip (s : list Z) : list Z := match s with c :: t => if (c =? 45) || (c =? 43) then t else s | [] => s end.
+Definition us_body (s1 : list Z) : bool :=
+  match s1 with
+  | c0 :: c1 :: t => if (c0 =? 48) && is_boxl c1 then us_scan (lower c1 =? 120) t SDigit else us_scan false s1 SBegin
+  | _ => us_scan false s1 SBegin
+  end.
+Lemma underscore_ok_eq s : underscore_ok s = us_body (us_strip s).
+Proof.
+  unfold underscore_ok, us_body. fold (us_strip s). destruct (us_strip s) as [|c0 [|c1 t]]; try reflexivity.
+  - destruct c0 as [|p|p]; try reflexivity. do 7 (try (destruct p as [p|p|]; try reflexivity)).
+  - destruct (Z.eqb_spec c0 48) as [->|Hne]; [reflexivity|]. cbn [andb].
+    destruct c0 as [|p|p]; try reflexivity. do 7 (try (destruct p as [p|p|]; try reflexivity)). congruence.
+Qed.
+
+(* the state variable saw of the code ('^' '0' '_' '!') and the model's states *)
+Definition saw_code (st : saw) : Z := match st with SBegin => 94 | SDigit => 48 | SUnder => 95 | SOther => 33 end.
+(* one character, on the codes *)
+Definition us_stepZ (hex : bool) (c sw : Z) : option Z :=
+  if ((48 <=? c) && (c <=? 57)) || (hex && (97 <=? lower c) && (lower c <=? 102)) then Some 48
+  else if c =? 95 then (if sw =? 48 then Some 95 else None)
+  else if sw =? 95 then None else Some 33.
+Definition us_step (hex : bool) (c : Z) (st : saw) : option saw :=
+  if ((48 <=? c) && (c <=? 57)) || (hex && (97 <=? lower c) && (lower c <=? 102)) then Some SDigit
+  else if c =? 95 then match st with SDigit => Some SUnder | _ => None end
+  else match st with SUnder => None | _ => Some SOther end.
+Lemma us_step_code hex c st : us_stepZ hex c (saw_code st) = option_map saw_code (us_step hex c st).
+Proof.
+  unfold us_stepZ, us_step. destruct (((48 <=? c) && (c <=? 57)) || (hex && (97 <=? lower c) && (lower c <=? 102))); [reflexivity|].
+  destruct (c =? 95); destruct st; reflexivity.
+Qed.
+Lemma us_scan_cons hex c t st : us_scan hex (c :: t) st = match us_step hex c st with None => false | Some st' => us_scan hex t st' end.
+Proof.
+  cbn [us_scan]. unfold us_step. destruct (((48 <=? c) && (c <=? 57)) || (hex && (97 <=? lower c) && (lower c <=? 102))); [reflexivity|].
+  destruct (c =? 95); destruct st; reflexivity.
+Qed.
+Lemma saw_code_inj a b : saw_code a = saw_code b -> a = b.
+Proof. destruct a, b; cbn; congruence. Qed.
+
+(* the loop and the code behind it, for any order pk of (saw, i), given what one iteration does *)
+Lemma us_while {St} (pk : Z -> Z -> St) (c : St -> M bool) (b : St -> M (ctl St bool)) (p : St -> M St)
+    (after : St + bool -> M bool) (hex : bool) (s : list Z) :
+  (forall k sw, (k < length s)%nat ->
+     iter1 c b p (pk sw (Z.of_nat k)) =
+     Ret (match us_stepZ hex (nth k s 0) sw with None => inr (inr false) | Some sw' => inl (pk sw' (Z.of_nat k + 1)) end)) ->
+  (forall sw, iter1 c b p (pk sw (zlen s)) = Ret (inr (inl (pk sw (zlen s))))) ->
+  (forall sw i, after (inl (pk sw i)) = Ret (negb (sw =? 95))) ->
+  (forall v, after (inr v) = Ret v) ->
+  forall f k st, (k <= length s)%nat -> (length s - k < f)%nat ->
+    bind (while f c b p (pk (saw_code st) (Z.of_nat k))) after = Ret (us_scan hex (skipn k s) st).
+Proof.
+  intros Hstep Hend Hafter Hret. induction f as [|f IH]; intros k st Hk Hf; [lia|]. rewrite while_iter.
+  destruct (Nat.eq_dec k (length s)) as [->|Hne].
+  - fold (zlen s). rewrite Hend. cbn [bind]. rewrite Hafter, skipn_all. destruct st; reflexivity.
+  - assert (Hlt : (k < length s)%nat) by lia. rewrite (Hstep k _ Hlt), us_step_code, (skipn_cons_nth s k Hlt), us_scan_cons.
+    destruct (us_step hex (nth k s 0) st) as [st'|]; cbn [option_map bind].
+    + replace (Z.of_nat k + 1) with (Z.of_nat (S k)) by lia. apply IH; lia.
+    + apply Hret.
+Qed.
+
+(* case analysis on the atomic comparisons of both sides, most shared first *)
+Ltac break_atom :=
+  match goal with
+  | |- context [?a =? ?b] => destruct (a =? b) eqn:?
+  | |- context [?a <? ?b] => destruct (a <? b) eqn:?
+  | |- context [?a <=? ?b] => destruct (a <=? b) eqn:?
+  | |- context [if ?c then _ else _] => destruct c eqn:?
+  end; cbn [negb andb orb]; cbv beta iota.
+Ltac crush_eq := repeat first [ rewrite bind_Ret | progress cbv beta iota | break_atom ]; first [ reflexivity | exfalso; lia ].
+
+Ltac us_shape pk c b p after fuel hex s1 st k :=
+  let H1 := fresh "H1" in let H2 := fresh "H2" in let H3 := fresh "H3" in
+  assert (H1 : forall k sw, (k < length s1)%nat ->
+     iter1 c b p (pk sw (Z.of_nat k)) =
+     Ret (match us_stepZ hex (nth k s1 0) sw with None => inr (inr false) | Some sw' => inl (pk sw' (Z.of_nat k + 1)) end));
+  [ let k := fresh "k" in intros k ? ?; iter_open; unfold us_stepZ, lower;
+    assert (Hl : (Z.of_nat k <? zlen s1) = true) by (unfold zlen; lia);
+    repeat first [ rewrite Hl | rewrite (m_get_eq s1 _ k) by lia | rewrite bind_Ret | progress cbv beta iota ];
+    generalize (nth k s1 0); intro; clear; crush_eq
+  | assert (H2 : forall sw, iter1 c b p (pk sw (zlen s1)) = Ret (inr (inl (pk sw (zlen s1)))));
+    [ intros; iter_open; rewrite Z.ltb_irrefl; reflexivity
+    | assert (H3 : forall sw i, after (inl (pk sw i)) = Ret (negb (sw =? 95)));
+      [ intros; cbv beta iota; crush_eq
+      | rewrite (us_while pk c b p after hex s1 H1 H2 H3 (fun v => eq_refl) fuel k st) by lia; clear H1 H2 H3 ] ] ].
+
+Theorem code_underscoreOK : forall fuel s, (length s < fuel)%nat -> g_underscoreOK fuel s = Ret (underscore_ok s).
+Proof.
+  intros fuel s Hf. rewrite underscore_ok_eq. open_top g_underscoreOK. repeat head_let. name_join K.
+  (* what follows the optional sign *)
+  assert (HK : forall s1, (length s1 < fuel)%nat -> K s1 = Ret (us_body s1)).
+  { intros s1 Hf1. subst K. cbv beta. repeat head_let. name_join K18.
+    (* the loop from position k in state st, and the final test *)
+    assert (H18 : forall hex sw i st k, sw = saw_code st -> i = Z.of_nat k -> (k <= length s1)%nat ->
+              K18 sw i hex = Ret (us_scan hex (skipn k s1) st)).
+    { intros hex sw i st k -> -> Hk. subst K18. cbv beta. open_code.
+      match goal with |- bind (while fuel ?c ?b ?p ?s0) ?after = _ =>
+        first [ us_shape (fun sw i : Z => (sw, i)) c b p after fuel hex s1 st k | us_shape (fun sw i : Z => (i, sw)) c b p after fuel hex s1 st k ]
+      end. reflexivity. }
+    clearbody K18. open_code. unfold us_body, is_boxl, lower.
+    destruct s1 as [|a [|b t]].
+    - mev. rewrite (H18 _ _ _ SBegin 0%nat) by (reflexivity || (cbn [length]; lia)). reflexivity.
+    - mev. rewrite (H18 _ _ _ SBegin 0%nat) by (reflexivity || (cbn [length]; lia)). reflexivity.
+    - destruct (Z.eqb_spec a 48); destruct (Z.eqb_spec (Z.lor b 32) 98); destruct (Z.eqb_spec (Z.lor b 32) 111); destruct (Z.eqb_spec (Z.lor b 32) 120);
+        try (exfalso; lia); cbn [andb orb]; mev;
+        first [ rewrite (H18 _ _ _ SDigit 2%nat) by (reflexivity || (cbn [length]; lia)) | rewrite (H18 _ _ _ SBegin 0%nat) by (reflexivity || (cbn [length]; lia)) ];
+        cbn [skipn]; repeat decide_if; repeat decide_cmp; reflexivity. }
+  clearbody K. open_code. unfold us_strip.
+  destruct s as [|c0 t]; [mev; rewrite HK by exact Hf; reflexivity|].
+  destruct (Z.eqb_spec c0 45); [|destruct (Z.eqb_spec c0 43)]; cbn [orb]; mev; rewrite HK by (cbn [length] in Hf; cbn [length]; lia); reflexivity.
 Qed.
